@@ -39,12 +39,14 @@ Definition mapped_of (a : desc) (w : pv) : option pv :=
   end.
 Definition is_mapped (a : desc) : bool := match a with DMap _ | DPrefixMap _ => true | _ => false end.
 
-(* the trait's post_setattr: absent / stores x under name_ / raises (KeyError or TypeError of map[value]) *)
+(* the trait's post_setattr: absent / stores x under name_ / raises. Since c056106 Map.post_setattr and
+   PrefixMap.post_setattr turn the KeyError / TypeError of map[value] into TraitError("Unmappable") — also when the
+   trait stands alone, where only an unvalidated value (the Undefined bypass, F22) or a default that is not a key gets there *)
 Inductive post := NoPost | PostSet (x : pv) | PostRaise (e : exn).
 Definition post_setattr (d : desc) (w : pv) : post :=
   match d with
   | DMap _ | DPrefixMap _ =>
-      match mapped_of d w with Some x => PostSet x | None => PostRaise EOtherError end
+      match mapped_of d w with Some x => PostSet x | None => PostRaise ETraitError end
   | DCompound ds =>
       (* TraitCompound._post_setattr (trait_handlers.py:728): the handlers that have a post_setattr are tried in turn;
          Map.post_setattr / PrefixMap.post_setattr raise TraitError("Unmappable") for a value that is not one of their
